@@ -943,14 +943,22 @@ func runDispatch(ctx *Ctx) {
 			name     string
 			response bool
 			op       kmip.Operation
-			kids     func(ot uint32, obj *tree.Item) []*tree.Item
+			kids     func(ot, wire uint32, obj *tree.Item) []*tree.Item // ot: the announced type; wire: the type of obj
 		}{
-			{"get", true, kmip.OperationGet, func(ot uint32, obj *tree.Item) []*tree.Item { return []*tree.Item{otItem(ot), uid, obj} }},
-			{"export", true, kmip.OperationExport, func(ot uint32, obj *tree.Item) []*tree.Item { return []*tree.Item{otItem(ot), uid, other, obj} }},
-			{"register", false, kmip.OperationRegister, func(ot uint32, obj *tree.Item) []*tree.Item {
+			{"get", true, kmip.OperationGet, func(ot, wire uint32, obj *tree.Item) []*tree.Item { return []*tree.Item{otItem(ot), uid, obj} }},
+			{"export", true, kmip.OperationExport, func(ot, wire uint32, obj *tree.Item) []*tree.Item { return []*tree.Item{otItem(ot), uid, other, obj} }},
+			// the Object Type FIELD decides in an Export response, even when an Object Type attribute names the wire object's type
+			{"export-with-attribute", true, kmip.OperationExport, func(ot, wire uint32, obj *tree.Item) []*tree.Item {
+				return []*tree.Item{otItem(ot), uid, otAttr(wire), obj}
+			}},
+			{"register", false, kmip.OperationRegister, func(ot, wire uint32, obj *tree.Item) []*tree.Item {
 				return []*tree.Item{otItem(ot), {Tag: kmip.TagTemplateAttribute, Kind: tree.KStruct}, obj}
 			}},
-			{"import", false, kmip.OperationImport, func(ot uint32, obj *tree.Item) []*tree.Item { return []*tree.Item{uid, other, otAttr(ot), obj} }},
+			// ... and in a Register request even when the template attribute names the wire object's type
+			{"register-with-attribute", false, kmip.OperationRegister, func(ot, wire uint32, obj *tree.Item) []*tree.Item {
+				return []*tree.Item{otItem(ot), {Tag: kmip.TagTemplateAttribute, Kind: tree.KStruct, Children: []*tree.Item{otAttr(wire)}}, obj}
+			}},
+			{"import", false, kmip.OperationImport, func(ot, wire uint32, obj *tree.Item) []*tree.Item { return []*tree.Item{uid, other, otAttr(ot), obj} }},
 		}
 		for _, c := range carriers {
 			ptag := kmip.TagRequestPayload
@@ -963,7 +971,7 @@ func runDispatch(ctx *Ctx) {
 					continue
 				}
 				msg := func(ot uint32) *tree.Item {
-					return messageTree(c.response, uint32(c.op), &tree.Item{Tag: ptag, Kind: tree.KStruct, Children: c.kids(ot, obj)})
+					return messageTree(c.response, uint32(c.op), &tree.Item{Tag: ptag, Kind: tree.KStruct, Children: c.kids(ot, wo.ObjectType, obj)})
 				}
 				e.runTree(msg(wo.ObjectType), c.response, "ok", false, "object-matrix-same-type")
 				for _, ao := range s.Objects {
@@ -996,7 +1004,7 @@ func runDispatch(ctx *Ctx) {
 	if rows, _ := loadAttrSpec(); ctx.Res.Distribution["dispatch.attrspec.accepted"] < 3*len(rows) {
 		missing = append(missing, fmt.Sprintf("attrspec.accepted(%d of %d)", ctx.Res.Distribution["dispatch.attrspec.accepted"], 3*len(rows)))
 	}
-	for _, c := range []string{"get", "export", "register", "import"} {
+	for _, c := range []string{"get", "export", "export-with-attribute", "register", "register-with-attribute", "import"} {
 		if ctx.Res.Distribution["dispatch.object-matrix."+c] < len(s.Objects) {
 			missing = append(missing, fmt.Sprintf("object-matrix.%s(%d of %d objects)", c, ctx.Res.Distribution["dispatch.object-matrix."+c], len(s.Objects)))
 		}
